@@ -150,7 +150,7 @@ def aff_congruent(a, b, m):
 
 class St:
     """one disjunct of abstract state"""
-    __slots__ = ('frames', 'iv', 'rel', 'objs', 'discr', 'trace', 'loops', 'dead', 'notes', 'lin', 'tested')
+    __slots__ = ('frames', 'iv', 'rel', 'objs', 'discr', 'trace', 'loops', 'dead', 'notes', 'lin', 'tested', 'lazy', 'gcmark')
 
     def __init__(self):
         self.frames = {}
@@ -163,6 +163,8 @@ class St:
         self.dead = False
         self.notes = ()
         self.lin = ()     # assumed linear facts: tuple of (Aff, lo, hi)
+        self.gcmark = 0
+        self.lazy = {}     # intervals recomputed from defining terms (cache only; never joined)
         self.tested = frozenset()   # vids / ('discr', enum path) the path condition of this disjunct depends on
 
     def clone(self):
@@ -177,6 +179,7 @@ class St:
         s.notes = self.notes
         s.lin = self.lin
         s.tested = self.tested
+        s.gcmark = self.gcmark
         return s
 
 
@@ -225,7 +228,10 @@ def get_iv(st, vid):
     # a value defined in another path's state: recompute from its (global) defining term in this state
     t = TERM.get(vid)
     if t is not None:
-        st.iv[vid] = (-INF, INF)   # cycle guard
+        r = st.lazy.get(vid)
+        if r is not None:
+            return r
+        st.lazy[vid] = (-INF, INF)   # cycle guard
         r = eval_term(st, t)
         if r is None:
             r = (-INF, INF)
@@ -235,10 +241,7 @@ def get_iv(st, vid):
             r = (max(r[0], e[0]), min(r[1], e[1]))
         if r[0] > r[1]:
             r = (-INF, INF)
-        if r == (-INF, INF):
-            del st.iv[vid]       # nothing learnt: do not make the vid look live in this state
-        else:
-            st.iv[vid] = r
+        st.lazy[vid] = r
         return r
     return (-INF, INF)
 
@@ -252,6 +255,8 @@ def set_iv(st, vid, lo, hi):
         return False
     if (lo, hi) != (olo, ohi):
         st.iv[vid] = (lo, hi)
+        if st.lazy:
+            st.lazy = {}
         return _propagate(st, vid, 0)
     return True
 
@@ -352,8 +357,59 @@ def _relkey(a, b):
 _FLIP = {'<': '>', '>': '<', '=': '='}
 
 
+def leq_provable(st, fa, fb, depth=2):
+    """is fa <= fb provable from intervals plus the recorded ordering facts (x <= y  =>  fb - fa may be reduced by y - x)?"""
+    d = aff_add(fb, fa, -1)
+    if d is None or d.mod:
+        return False
+    return _nonneg(st, d, depth, 0)
+
+
+def _nonneg(st, d, depth, strict):
+    iv = _eval_direct(st, aff_concretize(st, d))
+    if iv[0] >= strict:
+        return True
+    if depth == 0 or not st.rel or len(st.rel) > 200:
+        return False
+    if len(st.rel) > 80:
+        return False
+    for (x, y), r in st.rel.items():
+        # fact: x r y with x < y as vids; derive a non-negative form g = hi - lo (or >= 1 when strict)
+        cands = []
+        if '>' not in r:
+            cands.append((aff_add(aff_of(y), aff_of(x), -1), 0 if '=' in r else 1))      # y - x >= 0 / >= 1
+        if '<' not in r:
+            cands.append((aff_add(aff_of(x), aff_of(y), -1), 0 if '=' in r else 1))      # x - y >= 0 / >= 1
+        for g, gmin in cands:
+            if g is None or g.mod:
+                continue
+            d2 = aff_add(d, g, -1)
+            if d2 is not None and len(d2.co) <= len(d.co) + 1 and _nonneg(st, d2, depth - 1, strict - gmin):
+                return True
+    return False
+
+
 def rel_get(st, a, b):
-    """possible orderings of a vs b as a frozenset of '<','=','>'"""
+    """possible orderings of a vs b as a frozenset of '<','=','>' (direct facts and intervals only)"""
+    return _rel_get0(st, a, b)
+
+
+def rel_get_deep(st, a, b):
+    """rel_get strengthened by chaining ordering facts through affine forms (used for precondition checks)"""
+    r = _rel_get0(st, a, b)
+    if len(r) > 1 and st.rel and not (a in CONSTVAL and b in CONSTVAL):
+        fa, fb = aff_of(a), aff_of(b)
+        out = set(r)
+        if '>' in out and leq_provable(st, fa, fb):
+            out.discard('>')
+        if '<' in out and leq_provable(st, fb, fa):
+            out.discard('<')
+        if out:
+            r = frozenset(out)
+    return r
+
+
+def _rel_get0(st, a, b):
     if a == b:
         return frozenset('=')
     r = st.rel.get(_relkey(a, b))
@@ -388,9 +444,9 @@ CMP_SETS = {'Lt': '<', 'Le': '<=', 'Gt': '>', 'Ge': '>=', 'Eq': '=', 'Ne': '<>'}
 NEG = {'Lt': 'Ge', 'Le': 'Gt', 'Gt': 'Le', 'Ge': 'Lt', 'Eq': 'Ne', 'Ne': 'Eq'}
 
 
-def cmp_possible(st, op, a, b):
+def cmp_possible(st, op, a, b, deep=False):
     """(can be true, can be false)"""
-    r = rel_get(st, a, b)
+    r = rel_get_deep(st, a, b) if deep else rel_get(st, a, b)
     want = frozenset(CMP_SETS[op])
     return (bool(r & want), bool(r - want))
 
